@@ -45,9 +45,12 @@ type Node struct {
 	Crashes int
 	Calls   int
 	DownFor int // block steps until automatic restart (0 = stays down until told)
+	ShadowEndpoint string
+	LastErr string
 
 	lastCalls   []EngineCall
 	lastFaulted bool
+	lastEngineTrouble bool
 }
 
 func (w *World) newNode(id int, key *SecpKey) *Node {
@@ -88,8 +91,8 @@ func (n *Node) start() {
 	if n.ID < len(cfg.InterBlockCache) && cfg.InterBlockCache[n.ID] {
 		opts = append(opts, baseapp.SetInterBlockCache(store.NewCommitKVStoreCacheManager()))
 	}
-	a, err := goatapp.New(nodeLogger(), n.DB, nil, true, appOpts{
-		"goat.geth": fmt.Sprintf("sim://el%d", n.ID), "priv_validator_key_file": "pv.json", "home": n.Home,
+	a, err := goatapp.New(errLogger{nodeLogger(), n}, n.DB, nil, true, appOpts{
+		"goat.geth": fmt.Sprintf("sim://el%d", n.EL.ID), "priv_validator_key_file": "pv.json", "home": n.Home,
 	}, opts...)
 	if err != nil {
 		panic(harnessError{"app.New: " + err.Error()})
@@ -115,6 +118,18 @@ func nodeLogger() log.Logger {
 	}
 	return log.NewNopLogger()
 }
+
+// errLogger keeps the last error-level message a node logged (the reason of a rejected proposal).
+type errLogger struct {
+	log.Logger
+	n *Node
+}
+
+func (l errLogger) Error(msg string, kv ...any) {
+	l.n.LastErr = fmt.Sprint(msg, " ", kv)
+	l.Logger.Error(msg, kv...)
+}
+func (l errLogger) With(kv ...any) log.Logger { return errLogger{l.Logger.With(kv...), l.n} }
 
 // crash discards everything that is not on the simulated disk.
 func (n *Node) crash(why string) {
